@@ -93,6 +93,8 @@ static void* pend_addr[MAXT];
 
 static uint64_t sp_count, budget = 400000, allspin_streak, hang_limit = 30000;
 static uint64_t rng;
+static uint64_t ro_streak[MAXT];
+static uint64_t ro_limit = 48;
 static int sched_kind; /* 0 rand 1 pct 2 freeze 3 rr(no preempt) */
 static int switch_den = 3, freeze_den = 40, freeze_len = 600;
 static uint64_t pct_points[8];
@@ -161,6 +163,7 @@ static void vr_init(void) {
   freeze_den = envl("VR_FREEZE_DEN", freeze_den);
   freeze_len = envl("VR_FREEZE_LEN", freeze_len);
   auto_tick = envl("VR_AUTOTICK", 1);
+  ro_limit = envl("VR_ROSPIN", ro_limit);
   const char* sk = getenv("VR_SCHED");
   if (sk && !strcmp(sk, "pct")) sched_kind = 1;
   else if (sk && !strcmp(sk, "freeze")) sched_kind = 2;
@@ -173,12 +176,16 @@ static void vr_init(void) {
     for (int i = 0; i < MAXT; i++) prio[i] = 1000 + (int)(xs() % 1000);
   }
   for (int i = 0; i < MAXT; i++) pend[i] = -1;
+  /* fiber ids 0..MAXT-1 are reserved for the kernel threads' own contexts */
+  for (int i = 0; i < MAXT; i++) {
+    fibers[i].id = i;
+    fibers[i].alive = 1;
+    thread_fiber[i] = &fibers[i];
+  }
+  nfib = MAXT;
   my_tid = 0;
   tstate[0] = 1;
-  thread_fiber[0] = &fibers[nfib];
-  fibers[nfib].id = nfib;
-  fibers[nfib].alive = 1;
-  cur_fiber = &fibers[nfib++];
+  cur_fiber = &fibers[0];
   atomic_store(&turn, 0);
 }
 
@@ -461,6 +468,12 @@ static int pick(int me, int spin) {
 static void sp(int spin, int post_write) {
   if (my_tid < 0 || finished_flag) return;
   sp_count++;
+  /* a thread that only reads registered cells for a long stretch is polling for another
+   * thread's progress (e.g. the yield-retry loop of fiber_manager_wake_from_mpsc_queue when
+   * its own run queue is empty): treat it as spinning so strict-priority / freeze schedules
+   * cannot livelock on it */
+  if (post_write) ro_streak[my_tid] = 0;
+  else if (++ro_streak[my_tid] > ro_limit) spin = 1;
   if (sp_count > budget) vr_finish("BUDGET");
   if (spin) {
     spin_epoch[my_tid] = epoch;
@@ -536,10 +549,6 @@ int pthread_create(pthread_t* th, const pthread_attr_t* attr, void* (*fn)(void*)
   t->arg = arg;
   t->tid = nthreads;
   tstate[nthreads] = 1;
-  thread_fiber[nthreads] = &fibers[nfib];
-  fibers[nfib].id = nfib;
-  fibers[nfib].alive = 1;
-  nfib++;
   nthreads++;
   return real_pthread_create(th, attr, trampoline, t);
 }
@@ -580,6 +589,7 @@ static inline void plain(void* addr, int size, int is_write) {
     pend[t] = (int)(e - evs);
     pend_addr[t] = addr;
     epoch++;
+    ro_streak[t] = 0;
   } else {
     uint64_t v = 0;
     memcpy(&v, addr, size);
@@ -783,8 +793,16 @@ void vr_cas2_post(volatile void* loc, const void* orig, const void* nw, int ok) 
 
 /* ------------------------------------------------------------------ TSan fiber API (upstream calls these under __SANITIZE_THREAD__) */
 
+/* Upstream calls this only from fiber_context_init_from_thread, and it does so on the MAIN
+ * thread for every manager (fiber_manager_init creates manager 0..N-1 in order, then starts
+ * kernel thread i with manager i).  Returning the caller's context would give every
+ * kernel-thread context the same handle, so the k-th call returns the context reserved for
+ * kernel thread k. */
+static int get_current_calls;
 void* __tsan_get_current_fiber(void) {
   vr_init();
+  int k = get_current_calls++;
+  if (k < MAXT) return &fibers[k];
   return cur_fiber;
 }
 void* __tsan_create_fiber(unsigned flags) {
@@ -815,12 +833,14 @@ void __tsan_destroy_fiber(void* fiber) {
 void __tsan_switch_to_fiber(void* fiber, unsigned flags) {
   (void)flags;
   vfiber_t* f = fiber;
+
   if (my_tid >= 0 && !in_rt) {
     complete_pending(my_tid);
     ev_t* e = newev(K_SWITCH, -1, 0, 0);
     e->a = f->id;
     epoch++;
     idle_streak = 0;
+    ro_streak[my_tid] = 0;
   }
   cur_fiber = f;
 }
